@@ -10,6 +10,13 @@ Require Import JV.Base.PyPrelude.
 Import ListNotations.
 Open Scope Z_scope.
 
+(* joblib/pool.py (MemmappingPool.__init__) and joblib/executor.py (get_memmapping_executor): are mmap_mode / max_nbytes handed
+   on to get_memmapping_reducers, i.e. do they reach the place where they are USED *)
+Definition mp_pool_passes_mmap_mode : bool := true.
+Definition mp_pool_passes_max_nbytes : bool := true.
+Definition loky_executor_passes_mmap_mode : bool := true.
+Definition loky_executor_passes_max_nbytes : bool := true.
+
 (* joblib/executor.py (get_memmapping_executor): does the reuse decision look at temp_folder; is the new
    TemporaryResourcesManager(temp_folder) installed on an executor that is REUSED *)
 Definition reuse_key_has_temp_folder : bool := true.
